@@ -1401,6 +1401,7 @@ impl Compiler {
                 &instance_private_methods,
                 class_brand,
                 class_name.clone(),
+                has_super,
             )?
         } else {
             self.compile_default_constructor(
@@ -2030,6 +2031,7 @@ impl Compiler {
         instance_private_methods: &[&ClassMethod],
         class_brand: u32,
         name: Option<JsString>,
+        has_super: bool,
     ) -> Result<super::BytecodeChunk, JsError> {
         use super::FunctionInfo;
 
@@ -2051,6 +2053,7 @@ impl Compiler {
         // Param properties: (name, value_reg, needs_free)
         // needs_free is true for registers allocated for default values
         let mut param_properties: Vec<(JsString, u8, bool)> = Vec::new();
+        let mut rest_param = None;
 
         for (idx, param) in ctor.params.iter().enumerate() {
             let arg_reg = idx as u8;
@@ -2072,6 +2075,7 @@ impl Compiler {
                     }
                 }
                 crate::ast::Pattern::Rest(rest) => {
+                    rest_param = Some(idx);
                     if let crate::ast::Pattern::Identifier(id) = &*rest.argument {
                         param_names.push(id.name.cheap_clone());
                         let name_idx = func_compiler.builder.add_string(id.name.cheap_clone())?;
@@ -2136,6 +2140,46 @@ impl Compiler {
             }
         }
 
+        if has_super {
+            // Derived class: `this` exists only once super(...) has returned, so the
+            // parameter properties and fields are initialized right after that call.
+            for (_, value_reg, needs_free) in &param_properties {
+                if *needs_free {
+                    func_compiler.builder.free_register(*value_reg);
+                }
+            }
+            func_compiler.derived_ctor_init = Some(Rc::new(super::DerivedCtorInit {
+                param_properties: param_properties
+                    .iter()
+                    .map(|(n, _, _)| n.cheap_clone())
+                    .collect(),
+                instance_fields: instance_fields.iter().map(|f| (*f).clone()).collect(),
+                instance_private_fields: instance_private_fields
+                    .iter()
+                    .map(|f| (*f).clone())
+                    .collect(),
+                instance_private_methods: instance_private_methods
+                    .iter()
+                    .map(|m| (*m).clone())
+                    .collect(),
+                class_brand,
+            }));
+            param_properties.clear();
+        }
+        let (instance_fields, instance_private_fields, instance_private_methods): (
+            &[&ClassProperty],
+            &[&ClassProperty],
+            &[&ClassMethod],
+        ) = if has_super {
+            (&[], &[], &[])
+        } else {
+            (
+                instance_fields,
+                instance_private_fields,
+                instance_private_methods,
+            )
+        };
+
         // Emit parameter property assignments: this.x = x
         // These happen before instance field initializers
         for (prop_name, value_reg, needs_free) in &param_properties {
@@ -2192,7 +2236,7 @@ impl Compiler {
             name,
             param_count: ctor.params.len(),
             param_names,
-            rest_param: None,
+            rest_param,
             is_generator: false,
             is_async: false,
             is_arrow: false,
@@ -2202,6 +2246,41 @@ impl Compiler {
         });
 
         Ok(chunk)
+    }
+
+    /// Initialize parameter properties, fields and private members of a derived class
+    /// (emitted right after the `super(...)` call of its constructor).
+    pub(super) fn compile_derived_ctor_init(
+        &mut self,
+        init: &super::DerivedCtorInit,
+    ) -> Result<(), JsError> {
+        for prop_name in &init.param_properties {
+            let this_reg = self.builder.alloc_register()?;
+            let value_reg = self.builder.alloc_register()?;
+            self.builder.emit(Op::LoadThis { dst: this_reg });
+            let prop_idx = self.builder.add_string(prop_name.cheap_clone())?;
+            self.builder.emit(Op::GetVar {
+                dst: value_reg,
+                name: prop_idx,
+            });
+            self.builder.emit(Op::SetPropertyConst {
+                obj: this_reg,
+                key: prop_idx,
+                value: value_reg,
+            });
+            self.builder.free_register(value_reg);
+            self.builder.free_register(this_reg);
+        }
+        for field in &init.instance_fields {
+            self.compile_instance_field_initializer(field)?;
+        }
+        for field in &init.instance_private_fields {
+            self.compile_instance_private_field_initializer(field, init.class_brand)?;
+        }
+        for method in &init.instance_private_methods {
+            self.compile_instance_private_method_initializer(method, init.class_brand)?;
+        }
+        Ok(())
     }
 
     /// Compile default constructor (for classes without explicit constructor)
@@ -2663,23 +2742,33 @@ impl Compiler {
     ) -> Result<(), JsError> {
         self.builder.set_span(decl.span);
 
-        // Create the enum object
+        // Repeated declarations of one enum merge (`E || (E = {})` in the TypeScript
+        // emit): reuse the existing object when the name is already bound.
         let enum_obj = self.builder.alloc_register()?;
-        self.builder.emit(Op::CreateObject { dst: enum_obj });
-
-        // Declare the enum variable FIRST so member initializers can reference prior members
-        // via EnumName.MemberName or just MemberName (for const enums)
         let enum_name_idx = self.builder.add_string(decl.id.name.cheap_clone())?;
-        self.builder.emit(Op::DeclareVar {
-            name: enum_name_idx,
-            init: enum_obj,
-            mutable: true, // Enums are mutable like objects
-        });
+        let scope_entry = (decl.id.name.cheap_clone(), self.builder.current_scope_id());
+        if self.declared_enums.contains(&scope_entry) {
+            self.builder.emit(Op::GetVar {
+                dst: enum_obj,
+                name: enum_name_idx,
+            });
+        } else {
+            self.declared_enums.push(scope_entry);
+            // Declare the enum variable FIRST so member initializers can reference prior
+            // members via EnumName.MemberName or just MemberName (for const enums)
+            self.builder.emit(Op::CreateObject { dst: enum_obj });
+            self.builder.emit(Op::DeclareVar {
+                name: enum_name_idx,
+                init: enum_obj,
+                mutable: true, // Enums are mutable like objects
+            });
+        }
 
-        // Track the current numeric value for auto-increment
-        let mut current_value: i64 = 0;
+        // `value_reg` carries the previous member's value: a member without an
+        // initializer is that value plus one (0 for the first member).
         let value_reg = self.builder.alloc_register()?;
         let key_reg = self.builder.alloc_register()?;
+        let mut has_previous = false;
 
         // Track prior member names for rewriting identifier references
         let mut prior_members: Vec<JsString> = Vec::new();
@@ -2691,22 +2780,23 @@ impl Compiler {
             if let Some(ref init) = member.initializer {
                 // Compile the initializer expression, rewriting references to prior enum members
                 self.compile_enum_init_expression(init, value_reg, enum_obj, &prior_members)?;
-
-                // Try to compute the numeric value for auto-increment
-                // This is a simplified version - in reality, we'd need const evaluation
-                if let crate::ast::Expression::Literal(lit) = init
-                    && let crate::ast::LiteralValue::Number(n) = &lit.value
-                {
-                    current_value = *n as i64 + 1;
-                }
+            } else if has_previous {
+                self.builder.emit(Op::LoadInt {
+                    dst: key_reg,
+                    value: 1,
+                });
+                self.builder.emit(Op::Add {
+                    dst: value_reg,
+                    left: value_reg,
+                    right: key_reg,
+                });
             } else {
-                // Use auto-increment value
                 self.builder.emit(Op::LoadInt {
                     dst: value_reg,
-                    value: current_value as i32,
+                    value: 0,
                 });
-                current_value += 1;
             }
+            has_previous = true;
 
             // Add this member to prior members for subsequent initializers
             prior_members.push(member_name.cheap_clone());
@@ -2718,39 +2808,36 @@ impl Compiler {
                 value: value_reg,
             });
 
-            // Set reverse mapping for numeric values: EnumName[value] = MemberName
-            // Only for numeric values (not string enums)
-            // We need to check if value is numeric at runtime for mixed enums
-            let is_numeric = match &member.initializer {
-                None => true,
-                Some(init) => {
-                    // Check for numeric literal
-                    matches!(
-                        init,
-                        crate::ast::Expression::Literal(lit) if matches!(lit.as_ref(), crate::ast::Literal { value: crate::ast::LiteralValue::Number(_), .. })
-                    ) ||
-                    // Check for unary minus of numeric literal (e.g., -10)
-                    matches!(
-                        init,
-                        crate::ast::Expression::Unary(unary)
-                            if unary.operator == crate::ast::UnaryOp::Minus
-                            && matches!(
-                                unary.argument.as_ref(),
-                                crate::ast::Expression::Literal(lit) if matches!(lit.as_ref(), crate::ast::Literal { value: crate::ast::LiteralValue::Number(_), .. })
-                            )
-                    )
-                }
-            };
-            if is_numeric {
-                // Load the member name as a string value
-                self.builder.emit_load_string(key_reg, member_name)?;
-
-                // Set reverse mapping: EnumName[value] = "MemberName"
-                self.builder.emit(Op::SetProperty {
-                    obj: enum_obj,
-                    key: value_reg,
-                    value: key_reg,
+            // Set reverse mapping EnumName[value] = "MemberName" for every member whose
+            // value is a number (string members have none); computed initializers are
+            // only known at run time, so the test is made there.
+            let skip_reverse = if member.initializer.is_some() {
+                let type_reg = self.builder.alloc_register()?;
+                self.builder.emit(Op::Typeof {
+                    dst: type_reg,
+                    src: value_reg,
                 });
+                self.builder
+                    .emit_load_string(key_reg, JsString::from("number"))?;
+                self.builder.emit(Op::StrictEq {
+                    dst: type_reg,
+                    left: type_reg,
+                    right: key_reg,
+                });
+                let jump = self.builder.emit_jump_if_false(type_reg);
+                self.builder.free_register(type_reg);
+                Some(jump)
+            } else {
+                None
+            };
+            self.builder.emit_load_string(key_reg, member_name)?;
+            self.builder.emit(Op::SetProperty {
+                obj: enum_obj,
+                key: value_reg,
+                value: key_reg,
+            });
+            if let Some(jump) = skip_reverse {
+                self.builder.patch_jump(jump);
             }
         }
 
